@@ -291,7 +291,7 @@ pub fn main() {
     let mut bodies_out = vec![];
     let configs: Vec<(usize, usize, usize)> = if thorough {
         // (workers, preemption bound, rw policy)
-        vec![(2, 2, 0), (2, 2, 1), (3, 1, 0), (3, 1, 1)]
+        vec![(2, 2, 0), (2, 1, 1), (3, 1, 0), (3, 1, 1)]
     } else {
         vec![(2, 1, 0), (2, 1, 1)]
     };
@@ -323,7 +323,8 @@ pub fn main() {
             if expected.lock().unwrap().is_none() {
                 continue;
             }
-            let (sched, shared) = PbDfs::new(bound, max_exec);
+            let (mut sched, shared) = PbDfs::new(bound, max_exec);
+            sched.deadline = Some(Instant::now() + std::time::Duration::from_secs(if thorough { 150 } else { 20 }));
             let (e, o) = (expected.clone(), outcomes.clone());
             last_panic.lock().unwrap().clear();
             let r = catch_unwind(AssertUnwindSafe(|| {
@@ -331,7 +332,7 @@ pub fn main() {
             }));
             let sh = shared.lock().unwrap().clone();
             total_exec += sh.executions;
-            let complete = r.is_ok() && sh.executions < max_exec;
+            let complete = r.is_ok() && !sh.capped;
             if r.is_err() {
                 let msg = last_panic.lock().unwrap().clone();
                 let kind = if msg.contains("VIEW-DIFFERS") { "view-differs" } else if msg.to_lowercase().contains("deadlock") { "deadlock" } else if msg.contains("MACHINERY") { "machinery" } else { "panic" };
